@@ -131,8 +131,9 @@ def crit_geometries(rng, count):
 def kernels_cross_check(ctx, report, status):
     """every run: (1) the generator's self-test (refused constructs, accepted expressions against numpy's own reading,
     the slice reading against Python's slicing); (2) `pyexpr.evaluate` on the regenerated kernels against the REAL
-    `validity_mask` (with and without masks: validityMaskCol, allocLeftPx, rightMaskedPred + the fold of rightIterPx over
-    range(d_min, d_max + 1), reading the right cells at the gathered column), `mask_invalid_variable_disparity_range`
+    `validity_mask` (with and without masks: validityMaskCol, allocLeftPx, rightMaskCell + the fold of rightIterPx over
+    range(*rightLoopBounds), reading the right cells at the gathered column — the composition Properties/C04KernelsComp.lean
+    proves equal to the model), `mask_invalid_variable_disparity_range`
     and `mask_border`, cell by cell"""
     from fractions import Fraction  # noqa: F401
 
@@ -201,10 +202,11 @@ def kernels_cross_check(ctx, report, status):
                         f = ev("allocLeftPx", f, bool(dil_l[r, c]), int(left["msk"].data[r, c]), nd, vv)[0]
                     if mr is not None:
                         b27, ndr = 0, 0
-                        for dsp in range(a, b + 1):
+                        lo, hi = ev("rightLoopBounds", a, b)  # the translated bounds of `for dsp in range(LO, HI)`
+                        for dsp in range(lo, hi):
                             g = ev("rightIterPx", c, 0, cols - 1, dsp, off, a, b, bit1, 0, False, b27, ndr, f)[3]
                             inside = -cols <= g < cols  # numpy's own index rule (a negative index wraps)
-                            rm = int(ev("rightMaskedPred", int(right["msk"].data[r, g]), nd, vv)[0]) if inside else 0
+                            rm = ev("rightMaskCell", int(right["msk"].data[r, g]), nd, vv)[0] if inside else 0
                             dl = bool(dil_r[r, g]) if inside else False
                             if ev("validIndex", c, 0, cols - 1, dsp, off)[0] and not inside:
                                 raise IndexError("the translated valid_index reads outside the image")
